@@ -11,6 +11,7 @@ child_main()            (child) executes the behaviours of the scenario on real 
 
 A behaviour is a list of steps
    ["Spawn", f]  ["CbEnter", f, kind]  ["CbExit", f]  ["Exit", f]  ["Py", what]  ["Run", f, n, kind]
+   ["Fork", 0, [steps executed by the forked child]]
 (lock-step: each step is acknowledged before the next; "Run" lets the thread perform n callbacks
 on its own and then exit, for the free-running histories).
 """
@@ -217,6 +218,7 @@ class Child:
         self.nslot = 0
         self.lock = threading.Lock()
         self.outer = {}
+        self.forks = []
 
     # ---- observation
     # A thread state is identified by PyThreadState_GetID() (unique for the life of the interpreter),
@@ -336,6 +338,12 @@ class Child:
                 state[f] = "exited"
                 with self.lock:
                     evs.append({"ev": "Exit", "f": f, "live": None})
+            elif op == "Fork":
+                # the interpreter destroys every other thread state in the forked child
+                # (PyOS_AfterFork_Child), zombies pending or not; new foreign threads then call
+                # back in the child.  The child's history and exit status come back to us.
+                evs.append(self.fork(beh["id"], i, st[2]))
+                continue
             elif op == "Py":
                 self.py_activity(f)
                 if not any(s == "running" for s in state.values()):
@@ -364,6 +372,37 @@ class Child:
         if self.errors:
             raise RuntimeError("callback body failed: %r" % (self.errors,))
         return {"id": beh["id"], "events": evs}
+
+    def fork(self, bid, i, sub):
+        path = "%s.fork_%s_%d.json" % (self.progress.name, bid, i)
+        self.progress.flush()
+        sys.stdout.flush(); sys.stderr.flush()
+        pid = os.fork()
+        if pid == 0:
+            try:
+                self.python_ts = {self.cur_id()}
+                self.errors = []
+                self.forks = []
+                res = self.behaviour({"id": "%s/fork%d" % (bid, i), "steps": sub}, drain=True)
+                with open(path, "w") as f:
+                    json.dump(res, f)
+                self.note("%s/fork%d child done" % (bid, i))
+            except BaseException:      # noqa
+                import traceback
+                traceback.print_exc()
+                sys.stderr.flush()
+                os._exit(3)
+            os._exit(0)
+        _, status = os.waitpid(pid, 0)
+        sig = os.WTERMSIG(status) if os.WIFSIGNALED(status) else 0
+        code = os.WEXITSTATUS(status) if os.WIFEXITED(status) else -1
+        res = None
+        if os.path.exists(path):
+            with open(path) as f:
+                res = json.load(f)
+        self.forks.append({"id": "%s/fork%d" % (bid, i), "steps": sub, "signal": sig, "code": code,
+                           "events": res["events"] if res else None})
+        return {"ev": "Fork", "signal": sig, "code": code}
 
     def py_activity(self, what):
         threading, gc = self.threading, self.gc
@@ -397,7 +436,7 @@ def child_main():
         results.append(ch.behaviour(beh, drain=not (last and scn.get("leave_running"))))
     ch.note("all behaviours done")
     with open(out_path + ".tmp", "w") as f:
-        json.dump({"complete": True, "results": results}, f)
+        json.dump({"complete": True, "results": results, "forks": ch.forks}, f)
     os.rename(out_path + ".tmp", out_path)
     ch.note("result written")
     # normal interpreter shut-down follows, possibly with foreign threads still parked and
